@@ -219,9 +219,17 @@ def gen_scalar_vars(rng, falsy=True):
     """variables ranging over plain ints (0 is falsy) compared with literals, with each other and with attributes"""
     world = G.gen_world(rng)
     lo = 0 if falsy else 1
-    vars_ = [{"name": "n", "type": "int", "vals": sorted(rng.sample(range(lo, lo + 5), rng.randint(1, 4))), "dom": [], "kind": rng.choice(["list", "gen"])}]
-    if rng.random() < 0.5:
-        vars_.append({"name": "k", "type": "int", "vals": sorted(rng.sample(range(lo, lo + 4), rng.randint(1, 3))), "dom": [], "kind": "list"})
+    if falsy and rng.random() < 0.5:
+        # value-equal but distinct scalars and scalars whose hashes collide (hash(-1) == hash(-2), 1 == 1.0 == True)
+        pool = [-2, -1, 0, 1, 2, 1.0, True, 0.0, False, 3]
+        pick = lambda k: rng.sample(pool, rng.randint(1, k))
+        vars_ = [{"name": "n", "type": "obj", "vals": pick(5), "dom": [], "kind": rng.choice(["list", "gen"])}]
+        if rng.random() < 0.6:
+            vars_.append({"name": "k", "type": "obj", "vals": pick(4), "dom": [], "kind": rng.choice(["list", "gen"])})
+    else:
+        vars_ = [{"name": "n", "type": "int", "vals": sorted(rng.sample(range(lo, lo + 5), rng.randint(1, 4))), "dom": [], "kind": rng.choice(["list", "gen"])}]
+        if rng.random() < 0.5:
+            vars_.append({"name": "k", "type": "int", "vals": sorted(rng.sample(range(lo, lo + 4), rng.randint(1, 3))), "dom": [], "kind": "list"})
     if rng.random() < 0.5:
         vars_ += gen_vars(rng, world, 1, allow_empty=False)
     names = [v["name"] for v in vars_]
